@@ -23,6 +23,12 @@ THEOREMS = [
     'Sbepp.Properties.C04.cursor_step_protocol',
     'Sbepp.Properties.C04.protocol_geometry_is_image_geometry',
     'Sbepp.Properties.C04.cursor_wrong_position_reported',
+    'Sbepp.Properties.C04.cursor_subrange_spec',
+    'Sbepp.Properties.C04.cursor_subrange_spec_unchecked',
+    'Sbepp.Properties.C04.cursor_range_iteration',
+    'Sbepp.Properties.C04.size_check_sound',
+    'Sbepp.Properties.C04.cursor_checked_get_inside_view',
+    'Sbepp.Properties.C04.cursor_checked_set_inside_view',
     'Sbepp.Properties.C04.cursor_traversal_end_partial',
     'Sbepp.Properties.C04.cursor_entry_traversal_end',
     'Sbepp.Properties.C04.cursor_traversal_end_image',
@@ -252,6 +258,44 @@ def bad_subranges(level, value):
     return out
 
 
+def prefix_before(level, value, gi):
+    """plain traversal of everything before group `gi` of a level"""
+    rng = random.Random(0)
+    items = []
+    for f in level['fields']:
+        items += field_calls(rng, f, 'plain')
+    for g, gv in list(zip(level['groups'], value['groups']))[:gi]:
+        items += group_calls(rng, g, gv, 'plain')
+    return items
+
+
+def subrange_scripts(level, value, depth=0):
+    """every overload of cursor_range / cursor_subrange on every group reachable through first entries
+    (flat and nested groups, root and inner levels): pos in {0, 1, size-1, size}, count in {0, 1, size-pos};
+    the cursor is brought to entry `pos` by iterating the first `pos` entries of cursor_range, then the range under
+    test is iterated completely (every entry traversed in order); the script ends after the loop, so the final
+    cursor is the end of the last entry of the range"""
+    rng = random.Random(0)
+    out = []
+    for gi, (g, gv) in enumerate(zip(level['groups'], value['groups'])):
+        n = len(gv['entries'])
+        bodies = [legal_traversal(rng, g['level'], e, 'plain') for e in gv['entries']]
+        pre = prefix_before(level, value, gi)
+        ranges = [[('all', 0, 0, bodies)]]
+        for pos in sorted({0, 1, max(n - 1, 0), n}):
+            lead = [('all', 0, 0, bodies[:pos])] if pos else []
+            ranges.append(lead + [('sub', pos, 0, bodies[pos:])])
+            for count in sorted({0, 1, max(n - pos, 0)}):
+                ranges.append(lead + [('subn', pos, count, bodies[pos:pos + count])])
+        # a sub-range followed by the rest of the group and of the message: the traversal stays legal
+        for rs in ranges:
+            out.append(pre + [('r', g['name'], 'plain', rs)])
+        if n and depth < 2:
+            for inner in subrange_scripts(g['level'], gv['entries'][0], depth + 1)[:14]:
+                out.append(pre + [('r', g['name'], 'plain', [('all', 0, 0, [inner])])])
+    return out
+
+
 def alphabet(rng, level, value):
     """single steps for the exhaustive exploration: every (member, wrapper)
     getter, setters, and one call inside the first entry of every group"""
@@ -316,7 +360,12 @@ def diagnose(clevel, ev_impl, ev_spec):
         path = ref.split('=')[0]
         try:
             lv, last = level_at(clevel, path)
-            if '[' in last:   # entry creation
+            if '#' in last:   # a range object (its size) or the state of its iterator after the loop
+                g = [g for g in lv['groups'] if g['name'] == last.split('#')[0]][0]
+                el = g['level']
+                case.update({'member_kind': 'range-end' if last.endswith('end') else 'range-size',
+                             'group_kind': 'flat' if not el['groups'] and not el['datas'] else 'nested'})
+            elif '[' in last:   # entry creation
                 g = [g for g in lv['groups'] if g['name'] == last.split('[')[0]][0]
                 el = g['level']
                 case.update({'member_kind': 'entry', 'entry_members': len(G.members(el)),
@@ -460,12 +509,8 @@ class CursorRun:
         self.distinct.add((c.idx, m['name'], head['image'], start, line))
         unspec = spec.endswith('UNSPEC')
         if kind == 'truncated':
-            # the view is shorter than the image: the protocol specification is silent, the size checks of the
-            # model are compared with the real ones - up to the first call that leaves the cursor behind the end
-            # of the view (from there on SBEPP_SIZE_CHECK(begin > end) passes vacuously and the internal checks
-            # of the random-access getters, which the model does not have, decide)
-            vs = int(line.split()[4])
-            impl, model = cut_after_end(impl, vs), cut_after_end(model, vs)
+            # the view is shorter than the image: the protocol specification is silent; every SBEPP_SIZE_CHECK of the
+            # model is compared with the real one (the first member that does not fit must be reported, in both)
             spec_ok = True
             spec = model
         elif unspec:
@@ -506,16 +551,6 @@ class CursorRun:
         if len(chk.cov['samples']) < 6 and ncalls >= 3:
             chk.sample({'stream': kind, 'message': m['name'], 'script': G.items_sexp(script)[:300],
                         'spec': spec[:300], 'impl_status': st})
-
-
-def cut_after_end(events, vsize):
-    out = []
-    for e in events.split(';'):
-        out.append(e)
-        cur = e.rsplit('@', 1)[-1]
-        if cur.isdigit() and int(cur) > vsize:
-            break
-    return ';'.join(out)
 
 
 def flat_level(bo, level, v):
@@ -572,8 +607,9 @@ def cursor_check(chk, run, cr, cases):
                     inj_jobs.append((c, m, v, 'init', inj))
                     cr.stats['scripts_injected'] += len(inj)
                 # (d) subrange preconditions
-                bs = bad_subranges(m['level'], root)
-                if bs and k == 0:
+                bs = bad_subranges(m['level'], root) if k == 0 else []
+                bs += subrange_scripts(m['level'], root)
+                if bs:
                     sub_jobs.append((c, m, v, 'init', bs))
                     cr.stats['scripts_subrange'] += len(bs)
                 # (e) the same traversal through a view that ends inside the message: size checks
